@@ -454,6 +454,18 @@ class Interp:
             v = self.deref_arg(args[0])
             if isinstance(v, list):
                 return len(v)
+        if re.search(r"ops::index::Index<I> for \[T; N\]>::index$|ops::index::Index<I> for \[T\]>::index$|<\[T\] as core::ops::index::Index<I>>::index$", c) and len(args) == 2:
+            v, r = self.deref_arg(args[0]), self.deref_arg(args[1])
+            if isinstance(v, list) and isinstance(r, int):
+                if not 0 <= r < len(v):
+                    raise Panic("index out of bounds")
+                return ("refval", v[r])
+            if isinstance(v, list) and isinstance(r, dict) and not r.get("__adt", "").endswith("Inclusive"):
+                lo, hi = r.get("start", 0), r.get("end", len(v))
+                if isinstance(lo, int) and isinstance(hi, int):
+                    if not 0 <= lo <= hi <= len(v):
+                        raise Panic("slice range out of bounds")
+                    return ("refval", v[lo:hi])
         if re.search(r"slice::<impl \[T\]>::get$", c) and len(args) == 2:
             v, i = self.deref_arg(args[0]), self.deref_arg(args[1])
             if isinstance(v, list) and isinstance(i, int):
